@@ -18,8 +18,9 @@ from ..harness import proc
 ID = "C11"
 LEVEL = "exploration"
 RULE = (
-    "Enumerated: (A) path lists over {a,b,ab} with 1-3 segments: all 2-path and 3-path sets in every order and a strided "
-    "sample of 4-path sets (quick) / all of them (thorough), each rendered with the keeps in the root, one nested in a kept "
+    "Enumerated: (A) path lists over {a,b,ab} with 1-3 segments: 2-path and 3-path sets in every order (strided in the quick tier) and every 97th (quick) / "
+    "5th (thorough) 4-path set in its orders - end to end; ALL ordered lists of <= 4 paths are covered at function level "
+    "through dds' own overlap utility; also triples over an extended alphabet with characters that sort below '/'; each rendered with the keeps in the root, one nested in a kept "
     "function, one in a helper, or one as a data function of another module; (B) every cycle of length 1-4 over 4 edge kinds, "
     "entered at every member, in one and in two modules, plus the same shape with one edge cut; (C) dds.eval at depth 1-4 "
     "below plain-call / keep edges, plus the same chain without the eval. Each program is evaluated by real dds on a store "
@@ -94,8 +95,8 @@ def family_a(tier):
             ov = overlapping(combo)
             # keep every overlapping set; stride the (much more numerous) prefix-free ones
             n += 1
-            if k == 4 and tier != "thorough" and n % 97:
-                continue
+            if k == 4 and n % (97 if tier != "thorough" else 5):
+                continue   # 4-path sets are strided end-to-end; ALL of their orders are covered at function level
             if k == 3 and tier != "thorough" and n % 7:
                 continue
             if not ov and n % (3 if tier == "thorough" else 11):
@@ -384,7 +385,7 @@ def shard(idx, n, tier, seed):
     finally:
         runner.close()
         scratch.clean()
-    ev.exhaustive = True
+    ev.exhaustive = False   # the end-to-end families are strided; the function-level enumeration (parent) is complete
     return ev, None
 
 
@@ -419,6 +420,7 @@ def check_function_level(ev, tier):
                     raise Violation(f"overlap detection answers {got} for the path list {list(perm)} (expected {ov})",
                                     {"fam": "A", "paths": list(perm), "placement": "root", "special": 0})
     ev.extra["path_lists_checked_at_function_level"] = n
+    ev.extra["function_level_enumeration_complete_for_alphabet_a_b_ab"] = (tier == "thorough")
 
 
 def run(tier, seed, scale=1.0):
